@@ -20,4 +20,21 @@ PROPS = {
             "C15_registry": "Eval vm_compute in (rverdict optable13 the_case).",
         },
     },
+    "C14": {
+        "check_modules": ["theories/Check/CheckC14.v"],
+        "theorem": "C14_multidir / C14_unidir",
+        "trusted_base": COMMON_TB,
+        "assumptions": ["gorgonia Repeat/Reshape are modelled (G/Repeat.v, G/Reshape.v); extents >= 1 (gorgonia cannot build a tensor with a zero extent)"],
+        "explain": {
+            "C14_pairs": "Eval vm_compute in (spec the_case, model the_case, sources_intact the_case).",
+            "C14_random": "Eval vm_compute in (spec the_case, model the_case, sources_intact the_case).",
+        },
+    },
+    "C07": {
+        "check_modules": ["theories/Check/CheckC07.v"],
+        "theorem": "C07_*",
+        "trusted_base": COMMON_TB,
+        "assumptions": ["gorgonia Reshape on a fresh clone is modelled as: element-count check, then panic on a negative extent"],
+        "explain": {"C07_ops": "Eval vm_compute in (spec the_case, model the_case, known_class the_case)."},
+    },
 }
